@@ -166,3 +166,28 @@ def judge(module, cases, cfg="Judge.cfg", constants=None, timeout=1800, heap="4g
         return res, failed
     finally:
         shutil.rmtree(d, ignore_errors=True)
+
+
+def validate_trace(module, cfg, events, timeout=1800, heap="4g", dfs=False):
+    """Trace validation: events (list of dicts; the first is a header) -> (accepted, consumed, res)."""
+    d = tempfile.mkdtemp(prefix="trace_")
+    try:
+        path = os.path.join(d, "trace.ndjson")
+        with open(path, "w") as f:
+            for e in events:
+                f.write(json.dumps(e) + "\n")
+        res = must(run(module, cfg, env={"CASES": path}, workers=1, timeout=timeout, heap=heap, dfs=dfs), "trace " + module)
+        consumed = None
+        for j in res["json"]:
+            if isinstance(j, dict) and "consumed" in j:
+                consumed = j["consumed"]
+        inv = [v for v in res["violated"] if v != "postcondition"]
+        clauses = []
+        for j in res["json"]:
+            if isinstance(j, dict) and "violated" in j and j["violated"] not in [c[0] for c in clauses]:
+                clauses.append((j["violated"], j["at"]))
+        res["clauses"] = clauses
+        accepted = (consumed == len(events)) and not inv and not clauses
+        return accepted, consumed, res
+    finally:
+        shutil.rmtree(d, ignore_errors=True)
